@@ -22,10 +22,12 @@ def tifa_analysis(code=None, report=MAIN_REPORT):
     """
     if code is None:
         code = report.submission.main_code
-    if code in report[TIFA_TOOL_NAME]['analyses']:
-        return report[TIFA_TOOL_NAME]['analyses'][code]
+    # The same text further down the file (two sections that read alike) has other line numbers
+    shifted_by = report.submission.line_offsets.get(report.submission.main_file, 0) if report.submission else 0
+    if (code, shifted_by) in report[TIFA_TOOL_NAME]['analyses']:
+        return report[TIFA_TOOL_NAME]['analyses'][(code, shifted_by)]
     result = report[TIFA_TOOL_NAME]['instance'].process_code(code)
-    report[TIFA_TOOL_NAME]['analyses'][code] = result
+    report[TIFA_TOOL_NAME]['analyses'][(code, shifted_by)] = result
     report[TIFA_TOOL_NAME]['latest'] = result
     return result
 
